@@ -101,6 +101,9 @@ func run(c *vf.Ctx) {
 	c.Require("determinism_reencodings_with_maps", c.Pick(50000, 1000000))
 	c.Require("dirty_destination_decodes", c.Pick(30000, 600000))
 	c.Require("nontrivial", c.Pick(500, 8000))
+	c.Require("shapes_with_map_lexical_ordering_explicitly_false", c.Pick(100, 2000))
+	c.Require("shapes_with_map_lexical_ordering_explicitly_true", c.Pick(100, 2000))
+	c.Require("toplevel_with_type_settings_cases", c.Pick(20000, 400000))
 	c.Require("feature_pairs", 90)
 	c.Require("stream_cases", 300)
 	c.Assume("reflect, encoding/json and math/big of the Go toolchain are correct; the harness's own Build/Extract (value tree <-> Go value) is validated by the fact that the fresh-destination comparison is silent on the vast majority of shapes")
